@@ -24,16 +24,21 @@ impl PartialEq for Fe {
 impl Eq for Fe {}
 
 impl Fe {
+    /// Field element constant 0
     pub const ZERO: Fe = Fe([0, 0, 0, 0, 0, 0, 0, 0, 0, 0]);
+    /// Field element constant 1
     pub const ONE: Fe = Fe([1, 0, 0, 0, 0, 0, 0, 0, 0, 0]);
+    /// Field element constant for square root of -1
     pub const SQRTM1: Fe = Fe([
         -32595792, -7943725, 9377950, 3500415, 12389472, -272473, -25146209, -2005654, 326686,
         11406482,
     ]);
+    /// Field element constant for the edwards curve parameter D
     pub const D: Fe = Fe([
         -10913610, 13857413, -15372611, 6949391, 114729, -8787816, -6275908, -3247719, -18696448,
         -12055116,
     ]);
+    /// Field element constant for 2*D
     pub const D2: Fe = Fe([
         -21827239, -5839606, -30745221, 13898782, 229458, 15978800, -12551817, -6495438, 29715968,
         9444199,
@@ -374,6 +379,7 @@ impl Neg for &Fe {
 
 impl Fe {
     #[rustfmt::skip]
+    /// Create the field element from its little-endian byte representation (the top bit is ignored)
     pub fn from_bytes(s: &[u8; 32]) -> Fe {
         let mut h0 = load_4i(&s[0..4]);
         let mut h1 = load_3i(&s[4..7]) << 6;
@@ -428,6 +434,7 @@ impl Fe {
     */
 
     #[rustfmt::skip]
+    /// Represent the field element as its canonical little-endian byte representation
     pub fn to_bytes(&self) -> [u8; 32] {
         let Fe([mut h0, mut h1, mut h2, mut h3, mut h4, mut h5, mut h6, mut h7, mut h8, mut h9]) = *self;
         let mut q;
@@ -522,6 +529,7 @@ impl Fe {
     */
 
     #[rustfmt::skip]
+    /// Multiply the field element by a small constant
     pub const fn mul_small<const S0: u32>(&self) -> Fe {
         let &Fe(f) = self;
 
@@ -580,6 +588,7 @@ impl Fe {
     See fe_mul.c for discussion of implementation strategy.
     */
     #[rustfmt::skip]
+    /// Compute the square of the field element
     pub fn square(&self) -> Fe {
         let Fe([f0, f1, f2, f3, f4, f5, f6, f7, f8, f9]) = *self;
 
@@ -685,6 +694,7 @@ impl Fe {
             h5 as i32, h6 as i32, h7 as i32, h8 as i32, h9 as i32])
     }
 
+    /// Compute the square of the field element n times
     pub fn square_repeatdly(&self, n: usize) -> Fe {
         let mut acc = self.square();
         for _ in 1..n {
@@ -695,6 +705,7 @@ impl Fe {
 
 
     #[rustfmt::skip]
+    /// Compute twice the square of the field element
     pub fn square_and_double(&self) -> Fe {
         let Fe([f0, f1, f2, f3, f4, f5, f6, f7, f8, f9]) = *self;
 
@@ -821,10 +832,12 @@ impl Fe {
             h5 as i32, h6 as i32, h7 as i32, h8 as i32, h9 as i32])
     }
 
+    /// Check if the field element is not zero
     pub fn is_nonzero(&self) -> bool {
         CtEqual::ct_ne(&self.to_bytes(), &[0; 32]).into()
     }
 
+    /// Check if the field element is negative (its canonical representation is odd)
     pub fn is_negative(&self) -> bool {
         (self.to_bytes()[0] & 1) != 0
     }
